@@ -85,6 +85,8 @@ static int iter_cb(void *up, void *data) { (void)up; emit("v%llu", V(data)); cb_
 static unsigned long long cmp_k;
 static int sgn(long long z) { return z < 0 ? -1 : z > 0 ? 1 : 0; }
 static int modk_cmp(void *a, void *b) { return sgn((long long)(V(a) % cmp_k) - (long long)(V(b) % cmp_k)); }
+/* k >= 100: key-style, non-reflexive comparator (see ceq_of in coq/ListM.v) */
+static int keyk_cmp(void *a, void *b) { return sgn((long long)((V(a) + 1) % (cmp_k - 100)) - (long long)(V(b) % (cmp_k - 100))); }
 
 /* ---------- script reading ---------- */
 #define MAXTOK 64
@@ -157,7 +159,7 @@ static void run_stack(case_t *c, int dtor) {
 
 static void run_list(case_t *c, unsigned long long k, int dtor) {
     cmp_k = k;
-    m_list_t *q = m_list_new(k ? modk_cmp : NULL, dtor ? dtor_log : NULL);
+    m_list_t *q = m_list_new(k >= 100 ? keyk_cmp : k ? modk_cmp : NULL, dtor ? dtor_log : NULL);
     m_list_itr_t *itr = NULL;
     char *tok[MAXTOK];
     for (int i = 0; i < c->n; i++) {
